@@ -24,14 +24,17 @@ ASSUMPTIONS = ['a negative id is used only after (or in the same add action as) 
                're-use of a negative id by a later add follows the documented rule of action_summary.update_new_rows_map and '
                'test_temp_rowids: the later row takes the id over',
                'removal of a row clears the references to it (C10); the interpretation applies this so that whole tables can be compared']
-REQUIRED = {'bundles_valid_compared': {'quick': 3000, 'thorough': 40000},
-            'neg_uses_as_row_id': {'quick': 1500, 'thorough': 20000},
-            'neg_uses_in_ref': {'quick': 1500, 'thorough': 20000},
-            'neg_uses_in_reflist': {'quick': 1500, 'thorough': 20000},
-            'neg_removes': {'quick': 300, 'thorough': 4000},
-            'rejections_checked': {'quick': 300, 'thorough': 4000},
-            'failures_checked': {'quick': 300, 'thorough': 4000}}
-SHARD_TIMEOUT = {'quick': 240, 'thorough': 1500}
+REQUIRED = {'bundles_valid_compared': {'quick': 3000, 'thorough': 12000},
+            'neg_uses_as_row_id': {'quick': 1200, 'thorough': 4800},
+            'neg_uses_in_ref': {'quick': 1500, 'thorough': 6000},
+            'neg_uses_in_reflist': {'quick': 1500, 'thorough': 6000},
+            'neg_uses_same_action': {'quick': 500, 'thorough': 2000},
+            'neg_uses_other_table': {'quick': 1000, 'thorough': 4000},
+            'neg_reused_by_later_add': {'quick': 150, 'thorough': 600},
+            'neg_removes': {'quick': 300, 'thorough': 1200},
+            'rejections_checked': {'quick': 300, 'thorough': 1200},
+            'failures_checked': {'quick': 300, 'thorough': 1200}}
+SHARD_TIMEOUT = {'quick': 600, 'thorough': 2400}
 
 DATA = {
   'A': [('N', 'Int'), ('S', 'Text'), ('RA', 'Ref:A'), ('LA', 'RefList:A'), ('RB', 'Ref:B'), ('LB', 'RefList:B')],
@@ -49,7 +52,7 @@ TABLES = ['A', 'B', 'C']
 
 
 def plan(tier, seed):
-  n, docs, bundles = (16, 2, 170) if tier == 'quick' else (48, 4, 420)
+  n, docs, bundles = (16, 2, 170) if tier == 'quick' else (32, 3, 300)
   return [{'hseed': seed * 100003 + 2600 + i, 'docs': docs, 'bundles': bundles} for i in range(n)]
 
 
